@@ -30,6 +30,11 @@ var vTemplates = [...]struct{ pre, post string }{
 	20: {"a=b;", "\r\nX"},
 	21: {"INVITE sip:a SIP/2.0\r\nContent-Length:", ""},
 	22: {"INVITE sip:a SIP/2.0\r\nl:2\r\n\r\n", ""},
+	23: {"", " sip:a SIP/2.0\r\nX"},
+	24: {"SIP/2.0 ", "\r\nX"},
+	25: {"INVITE ", "\r\nX"},
+	26: {"SIP/2.0 200 ", "X"},
+	27: {"A B ", "X"},
 }
 
 // vTpl builds template t with a window of w symbolic bytes.
